@@ -215,3 +215,11 @@ def contract(target, **opts):
         CONTRACTS.setdefault(cls.__module__, []).append(ContractDecl(target, cls))
         return cls
     return deco
+
+
+def agg_frame(n=None, label="df", columns=()):
+    raise RuntimeError("agg_frame() has no native meaning (aggregate model); see the bounded differential part")
+
+
+def is_nan(x):
+    return x != x
